@@ -34,6 +34,7 @@ import (
 	nhttp "net/http"
 	"sort"
 	"strings"
+	"sync"
 
 	"github.com/valyala/fasthttp"
 	"mosn.io/api"
@@ -45,6 +46,7 @@ import (
 	"mosn.io/mosn/pkg/protocol/xprotocol"
 	"mosn.io/mosn/pkg/protocol/xprotocol/bolt"
 	"mosn.io/mosn/pkg/router"
+	shttp "mosn.io/mosn/pkg/stream/http"
 	"mosn.io/mosn/pkg/types"
 	"mosn.io/pkg/buffer"
 	"mosn.io/pkg/variable"
@@ -235,7 +237,30 @@ func hmParseResp(text string) *fasthttp.ResponseHeader {
 	return fh
 }
 
-func hmDriveH1(rule api.RouteRule, side string, lines []hmLine, collect, ndct bool, pool []string) string {
+var hmNdctOnce sync.Once
+var hmNdct bool
+
+// hmStreamNdct: whether the response header object of the HTTP/1 client stream has noDefaultContentType set (observed
+// once on the real stream code; a property of the code, not of the case)
+func hmStreamNdct() bool {
+	hmNdctOnce.Do(func() {
+		h, err := shttp.VerifClientResponseHeader(variable.NewVariableContext(context.Background()), []byte("HTTP/1.1 200 OK\r\nContent-Length: 0\r\n\r\n"))
+		if err != nil || h.ResponseHeader == nil {
+			panic("hm: probe response not accepted")
+		}
+		hmNdct = hmObservedNdct(h)
+	})
+	return hmNdct
+}
+
+// hmObservedNdct: does this response header object invent a Content-Type when it has none (noDefaultContentType off)?
+func hmObservedNdct(h mhttp.ResponseHeader) bool {
+	p := h.Clone().(mhttp.ResponseHeader)
+	p.Del("Content-Type")
+	return len(p.ContentType()) == 0
+}
+
+func hmDriveH1(rule api.RouteRule, side string, lines []hmLine, collect bool, pool []string) string {
 	if side == "req" {
 		fh := hmParseReq(hmWireText("GET / HTTP/1.1", lines))
 		h := mhttp.RequestHeader{RequestHeader: fh}
@@ -249,12 +274,17 @@ func hmDriveH1(rule api.RouteRule, side string, lines []hmLine, collect, ndct bo
 		r1 := hmRangeOf(h, true)
 		return hmRangeTok(r0) + "|" + hmRangeTok(r1) + "|" + gets + "|" + hmRangeTok(wire) + "|-"
 	}
-	fh := hmParseResp(hmWireText("HTTP/1.1 200 OK", append([]hmLine{{"Content-Length", "0"}}, lines...)))
-	h := mhttp.ResponseHeader{ResponseHeader: fh}
+	// the header object of an upstream response as the HTTP/1 client stream hands it to the proxy: the real
+	// fasthttp.Response.Read + clientStream.handleResponse (verif hook) on generated wire text
+	text := hmWireText("HTTP/1.1 200 OK", append([]hmLine{{"Content-Length", "0"}}, lines...))
+	h, err := shttp.VerifClientResponseHeader(variable.NewVariableContext(context.Background()), []byte(text))
+	if err != nil || h.ResponseHeader == nil {
+		panic(fmt.Sprintf("hm: response text not accepted by the client stream: %v", err))
+	}
+	fh := h.ResponseHeader
 	cl := h.Clone().(mhttp.ResponseHeader)
 	cl.SetNoDefaultContentType(true)
 	r0 := hmRangeOf(cl, true)
-	fh.SetNoDefaultContentType(ndct)
 	hmFinalize(rule, side, h)
 	// what the server stream prints: the header copied, no default Content-Type invented (pkg/stream/http AppendHeaders)
 	out := &fasthttp.ResponseHeader{}
@@ -442,17 +472,6 @@ func (cs *hmCase) class() string {
 				}
 			}
 		}
-		if cs.side == "resp" && !cs.ndct && app["content-type"] {
-			has := false
-			for _, e := range cs.lines {
-				if strings.ToLower(e.k) == "content-type" && e.v != "" {
-					has = true
-				}
-			}
-			if !has {
-				return "x-h1-default-ct"
-			}
-		}
 	}
 	return "n"
 }
@@ -489,7 +508,7 @@ func hmGen(r *hx.Rng, proto string) hmCase {
 	if r.Chance(50) {
 		counts = hwSparse
 	}
-	cs := hmCase{proto: proto, ndct: true}
+	cs := hmCase{proto: proto, ndct: hmStreamNdct()}
 	cs.route, cs.vhost, cs.global = hmGenLevel(r, counts, pool), hmGenLevel(r, counts, pool), hmGenLevel(r, counts, pool)
 	cs.lines = hmGenLines(r, proto, pool)
 	cs.collect = r.Chance(40)
@@ -501,7 +520,7 @@ func hmEmit(c *hx.Ctx, cs hmCase, rule api.RouteRule, stream string) {
 	var out string
 	switch cs.proto {
 	case "h1":
-		out = hmDriveH1(rule, cs.side, cs.lines, cs.collect, cs.ndct, pool)
+		out = hmDriveH1(rule, cs.side, cs.lines, cs.collect, pool)
 	case "h2":
 		out = hmDriveH2(rule, cs.side, cs.lines, pool)
 	default:
@@ -626,6 +645,8 @@ func hmFixed(c *hx.Ctx) {
 			fx{p, both(hwNil, rem("User-Agent", "server")), none, none, L("User-Agent", "ua", "Server", "s1", "Host", "h1")},
 			fx{p, both(ad("host", "", 0), hwNil), none, none, L("Host", "h1")},
 			fx{p, both(ad("x-b", "", 0), hwNil), none, none, L("x-b", "1")},
+			// a Content-Type appended (append unset = default true) to a message that has none
+			fx{p, both(ad("content-type", "application/json", 2), hwNil), none, none, L("x-a", "1")},
 			// cookies: overwrite and removal
 			fx{p, both(ad("cookie", "c=3", 0), hwNil), none, none, L("Cookie", "a=1", "Cookie", "b=2")},
 			fx{p, both(ad("set-cookie", "c=3", 0), hwNil), none, none, L("Set-Cookie", "a=1", "Set-Cookie", "b=2")},
@@ -657,17 +678,12 @@ func hmFixed(c *hx.Ctx) {
 				if col && (f.proto != "h1" || side != "req") {
 					continue
 				}
-				cs := hmCase{proto: f.proto, side: side, collect: col, ndct: true, route: f.route, vhost: f.vhost, global: f.globl, lines: f.lines}
+				cs := hmCase{proto: f.proto, side: side, collect: col, ndct: hmStreamNdct(), route: f.route, vhost: f.vhost, global: f.globl, lines: f.lines}
 				cs.tag = cs.class()
 				hmEmit(c, cs, rule, "fixed")
 			}
 		}
 	}
-	// the response default Content-Type (noDefaultContentType off): an append lands on a value the upstream never sent
-	f := fx{"h1", both(ad("content-type", "application/json", 2), hwNil), none, none, L("x-a", "1")}
-	cs := hmCase{proto: "h1", side: "resp", ndct: false, route: f.route, vhost: f.vhost, global: f.globl, lines: f.lines}
-	cs.tag = cs.class()
-	hmEmit(c, cs, hmRule(f.route, f.vhost, f.globl), "fixed")
 }
 
 // deliberate members of the exception classes (small, tagged): the behaviour stated for them is re-observed on every run
